@@ -541,9 +541,14 @@ def _call_spec(R: Recorder, stream: str, ep: str, args, kwargs=None, *, fn=None,
                        f"{ep} stopped at byte {pos} of the caller's stream but answers differently ({o3}, position "
                        f"{s3.tell()}) when only the bytes AFTER that position change, on {G.short(witness)}", witness)
     if consumers and value is not None and type(value).__module__.startswith("btclib"):
-        for cname, thunk in consumer_calls(value) + specific_consumers(value):
+        from . import c19_matrix as M
+        # the introspected matrix on every accepted object of the `matrix` group (and of a replay), on one in eight elsewhere
+        mrows = M.matrix_consumers(value) if len(wfull) % 8 == 0 or stream in ("replay", "matrix") else []
+        for cname, thunk in consumer_calls(value) + specific_consumers(value) + mrows:
             _hb(wfull[:20000], cname)
             o3, _, e3 = guarded(thunk, (), {})
+            if cname.endswith(")") and "(" in cname and not cname.endswith("()") and "[" not in cname and "=" not in cname:
+                R.counts[("consumers.matrix", cname, "calls")] = R.counts.get(("consumers.matrix", cname, "calls"), 0) + 1
             R.counts[(stream + ".consumers", ep, o3 if not o3.startswith("foreign") else "foreign")] = \
                 R.counts.get((stream + ".consumers", ep, o3 if not o3.startswith("foreign") else "foreign"), 0) + 1
             if o3 == "hang":
